@@ -104,6 +104,8 @@ pub struct Sim {
     /// set when a host call panicked; the simulation must stop
     pub panic: Option<(usize, usize, String, PanicInfo)>,
     pub events_processed: u64,
+    /// nodes whose Sync frames are rewritten to one-step on the wire (Follow_Up dropped)
+    pub one_step: Vec<bool>,
     /// hash of the order of processed events (distinct-interleaving evidence)
     pub order_hash: u64,
 }
@@ -126,6 +128,7 @@ impl Sim {
             last_tx: vec![],
             panic: None,
             events_processed: 0,
+            one_step: vec![],
             order_hash: 0xcbf29ce484222325,
         }
     }
@@ -190,6 +193,24 @@ impl Sim {
     }
 
     fn transmit(&mut self, node: usize, port: usize, data: Vec<u8>, event: bool) {
+        let mut data = data;
+        if self.one_step.get(node).copied().unwrap_or(false) {
+            if let Ok(mut m) = Msg::decode(&data) {
+                if m.hdr.msg_type == crate::refcodec::T_FOLLOW_UP {
+                    return;
+                }
+                if m.hdr.msg_type == crate::refcodec::T_SYNC {
+                    self.set_clock_time(node);
+                    let t = self.nodes[node].node.clock.lock().unwrap().read();
+                    let ns = t >> 32;
+                    m.hdr.set_flag(crate::refcodec::F_TWO_STEP, false);
+                    m.hdr.correction = ((t & 0xffff_ffff) >> 16) as i64;
+                    m.body = crate::refcodec::Body::Sync { origin: crate::refcodec::Ts { secs: (ns / 1_000_000_000) as u64, nanos: (ns % 1_000_000_000) as u32 } };
+                    m.hdr.length = None;
+                    data = m.encode();
+                }
+            }
+        }
         if let Ok(m) = Msg::decode(&data) {
             self.logev(node, port, LogKind::Tx { msg_type: m.hdr.msg_type, event, len: data.len() });
         }
